@@ -19,6 +19,8 @@ type Ex struct {
 	N    int
 	Cond *Cnd
 	str  string
+	// Op "rec": a record of floats, field names parallel to Args
+	Fields []string
 }
 
 type Cnd struct {
@@ -67,7 +69,7 @@ func (e *Ex) String() string {
 			p = append(p, a.String())
 		}
 		s = e.Name + "(" + strings.Join(p, ", ") + ")"
-	case "tuple":
+	case "tuple", "rec":
 		var p []string
 		for _, a := range e.Args {
 			p = append(p, a.String())
